@@ -119,5 +119,9 @@ pub fn run(rep: &mut Report) {
             rep.sample(json!({"pattern": pattern, "message": ctx.message, "expected": text_of(&expected)}));
         }
     });
+    if rep.tier == "thorough" {
+        // the verdict can flip between profiles (debug_assertions, overflow checks): repeat in release
+        crate::subrun::merge(rep, "L4V_BIN_RELEASE", "C10", "release");
+    }
     rep.require(rep.counter("encodings_compared") > 1000, "fewer than 1000 encodings compared");
 }
